@@ -119,7 +119,7 @@ def rw_case(cid: str, cls, schema: dict, aval: dict, var: dict, data: bytes,
                                                   budget=4 * len(data) + 200)
     case = {
         "id": cid, "mode": "rw", "sid": schema["sid"], "value": aval, "var": var,
-        "input": list(data), "wev": [], "wout": "skipped",
+        "input": project.runs(data), "wev": [], "wout": "skipped",
         "rev": RecSource.events(src), "rout": outcome_name(rexc),
         "rval": project.NULL, "req": True,
     }
@@ -145,12 +145,12 @@ def gen_wr_shard(args) -> dict:
     classes.sort(key=project.sid_of)
     lo, hi = class_slice
     schemas, cases, skipped = {}, [], 0
-    profiles = ["mixed", "min", "max"]
+    profiles = ["mixed", "min", "max", "big"]
     for ci, cls in enumerate(classes[lo:hi], start=lo):
         schema = project.project_schema(cls)
         schemas[schema["sid"]] = schema
         for k in range(per_class):
-            s = Sampler(seed * 1000003 + ci * 101 + k, profile=profiles[k % 3] if k < 3 else "mixed")
+            s = Sampler(seed * 1000003 + ci * 101 + k, profile=profiles[k % 4] if k < 8 else "mixed")
             aval = s.value(schema)
             rng = random.Random(seed * 7 + ci * 13 + k)
             c = wr_case(f"c{ci}_{k}", cls, schema, aval, rng)
@@ -161,3 +161,65 @@ def gen_wr_shard(args) -> dict:
     write_shard(shard_path, schemas, cases)
     return {"path": shard_path, "cases": len(cases), "skipped": skipped,
             "classes": hi - lo}
+
+
+# ------------------------------------------------------------------ wire-first (C03/C05)
+UNK_TAGS = [0, 1, 2, 3, 4, 5, 6, 7, 8, 9, 10, 11, 12, 20, 100, 127, 128, 16383, 16384, 2**31 - 1]
+
+
+def sample_variant(r: random.Random, canonical: bool) -> dict:
+    if canonical:
+        return dict(CANON_VAR)
+    expl = r.choice([0, 1, 1, 2])
+    unk = []
+    for _ in range(r.choice([0, 1, 1, 2, 3])):
+        t = r.choice(UNK_TAGS)
+        n = r.choice([0, 1, 3, 3, 17, 130])
+        if all(u["tag"] != t for u in unk):
+            unk.append({"tag": t, "data": [r.randrange(256) for _ in range(n)]})
+    return {"expl": expl, "unk": unk}
+
+
+def gen_rw_inputs(args) -> dict:
+    """Worker: (class, wire-domain value, variant) triples for pass 1 (CodecEncode)."""
+    path, class_slice, per_class, seed, ms_timestamps = args
+    classes = project.all_entity_classes()
+    classes.sort(key=project.sid_of)
+    lo, hi = class_slice
+    schemas, cases = {}, []
+    for ci, cls in enumerate(classes[lo:hi], start=lo):
+        schema = project.project_schema(cls)
+        schemas[schema["sid"]] = schema
+        for k in range(per_class):
+            r = random.Random(seed * 31 + ci * 977 + k)
+            profile, canonical = [("max", True), ("mixed", False), ("big", True), ("min", False),
+                                  ("mixed", True), ("max", False)][k % 6]
+            s = Sampler(seed * 1000033 + ci * 103 + k, profile=profile,
+                        ms_timestamps=ms_timestamps, wire_domain=True)
+            aval = s.value(schema)
+            var = sample_variant(r, canonical=canonical or not schema["flex"])
+            cases.append({"id": f"r{ci}_{k}", "sid": schema["sid"], "value": aval, "var": var})
+    write_shard(path, schemas, cases)
+    return {"path": path, "cases": len(cases)}
+
+
+def gen_rw_shard(args) -> dict:
+    """Worker: feed the specification's bytes to kio, record, write the pass-2 shard."""
+    in_path, encoded, out_path, seed = args
+    project.all_entity_classes()
+    with open(in_path) as f:
+        data = json.load(f)
+    enc = {e["id"]: e for e in encoded}
+    cases = []
+    import importlib
+    for c in data["cases"]:
+        e = enc[c["id"]]
+        mod, _, qual = c["sid"].partition(":")
+        cls = getattr(importlib.import_module(mod), qual)
+        schema = project.project_schema(cls)
+        rng = random.Random(seed * 17 + len(cases))
+        rc = rw_case(c["id"], cls, schema, c["value"], c["var"], project.unruns(e["b"]), rng)
+        rc["wt"] = bool(e["wt"])
+        cases.append(rc)
+    write_shard(out_path, data["schemas"], cases)
+    return {"path": out_path, "cases": len(cases)}
